@@ -86,7 +86,7 @@ def check(case):
 
 @st.composite
 def cases(draw):
-    sp = draw(gen.structural_models(time=True, step=True, delay_prob=3, max_rx=4))
+    sp = draw(gen.structural_models(time=True, step=True, delay_prob=3, max_rx=4, empty_delay=True))
     from vf.props.c14 import tiny_rate_constants, shared_rate_constant
     tiny_rate_constants(draw, sp)
     species = sp["species"]
